@@ -134,3 +134,88 @@ def leap_day_plus_year(p):
     assume(p._month_of_year == 2 and p._day_of_month == 29)
     q = p + Duration(years=1)
     assert q._month_of_year == 2 and q._day_of_month == dim(p._year + 1, 2)
+
+
+# ---------------------------------------------------------------- Duration algebra (C11)
+def dur_add_commutes(a, b):
+    x = a + b
+    y = b + a
+    assert x == y
+    assert hash(x) == hash(y)
+    assert d_years(x) == d_years(y) and d_months(x) == d_months(y) and dlen(x) == dlen(y)
+
+
+def dur_add_associative(a, b, c):
+    x = (a + b) + c
+    y = a + (b + c)
+    assert x == y and dlen(x) == dlen(y) and d_years(x) == d_years(y) \
+        and d_months(x) == d_months(y)
+
+
+def dur_identity_and_inverse(a):
+    z = Duration()
+    assert (a + z) == a and (z + a) == a
+    n = a + (-1 * a)
+    assert dlen(n) == 0 and d_years(n) == 0 and d_months(n) == 0
+    assert n == z
+    assert (a - a) == z
+
+
+def dur_mul_is_repeated_addition(a, n):
+    assert ((n + 1) * a) == ((n * a) + a)
+    assert (0 * a) == Duration()
+    assert (1 * a) == a
+    assert (a * n) == (n * a)
+
+
+def dur_sub_is_add_negation(a, b):
+    assert (a - b) == (a + (-1 * b))
+
+
+def dur_exact_equal_by_length(a, b):
+    assume(d_exact(a) and d_exact(b))
+    assert (a == b) == (dlen(a) == dlen(b))
+    if a == b:
+        assert hash(a) == hash(b)
+        assert not (a < b) and not (a > b) and a <= b and a >= b
+
+
+def dur_equal_implies_equal_hash(a, b):
+    if a == b:
+        assert hash(a) == hash(b)
+    assert (a == b) == (b == a)
+    assert (a != b) == (not (a == b))
+
+
+def dur_order_consistent(a, b):
+    lt = a < b
+    le = a <= b
+    gt = a > b
+    ge = a >= b
+    assert lt == (b > a) and le == (b >= a)
+    assert not (lt and gt)
+    assert le == (not gt) and ge == (not lt)
+    assert lt == (le and not ge)
+    assert (le and ge) == (rough_len(a) == rough_len(b))
+    assert lt == (rough_len(a) < rough_len(b))
+
+
+def dur_order_transitive(a, b, c):
+    if a <= b and b <= c:
+        assert a <= c
+    if a < b and b < c:
+        assert a < c
+
+
+def dur_unit_ratios():
+    assert Duration(weeks=1) == Duration(days=7)
+    assert Duration(days=1) == Duration(hours=24)
+    assert Duration(hours=1) == Duration(minutes=60)
+    assert Duration(minutes=1) == Duration(seconds=60)
+    assert hash(Duration(weeks=2)) == hash(Duration(days=14))
+    assert hash(Duration(days=1)) == hash(Duration(seconds=86400))
+    assert Duration(weeks=1) != Duration(days=7, seconds=1)
+    assert Duration(years=1) != Duration(days=365)
+    assert Duration(years=1) >= Duration(days=CALENDAR.DAYS_IN_YEAR) \
+        and Duration(years=1) <= Duration(days=CALENDAR.DAYS_IN_YEAR)
+    assert Duration(months=1) >= Duration(days=30) and Duration(months=1) <= Duration(days=30)
